@@ -21,6 +21,12 @@ directly in the nested-integer format read by harness/hx-policy:
   ops     [1,replace,setcfg] [2,all,setcfg] [3,name,conds,disp,actions] [4,name,all,conds,disp,actions]
           [5,name,stmts] [6,name,preserve,all,stmts] [7,set,dir,default,policies] [8,dir,names,all]
           [9,dir,source,nlri,attrs,nh,orig_nh,is_confed,local_ip,peer_ip] (dir 0 import 1 export) [10] dump
+          [11,[[ip,mask,max_length,asn]..]] install an RpkiTable with these VRPs (evaluation has rpki=Some from now on)
+          Global-level cases ('kind': 'global', harness/daemon/event_policy_hx.rs): ops 1..8 plus
+          [20,peer,[]|[[default,[policy..]]]] add_peer  [21,peer,dir,default,[policy..]] per-peer add assignment
+          [22,peer,dir,[policy..],all] per-peer delete assignment  [23,peer,source,nlri,attrs,nh,orig_nh,is_confed,local_ip,peer_ip] evaluate
+          with the peer's effective export policy  [24] dump
+          [12,nlri,asn] probe RpkiTable::validate for (prefix, origin AS): [] (None) | [state] | [-2] (no table)
 """
 import json, re, itertools
 from vp import val, coqrun, rustrun
@@ -47,7 +53,8 @@ RX = {
     # large community regexes
     301: '^65000:.*:1$', 302: '65000:1:.*', 303: ':2:',
     # as-path regexes (the code never evaluates these: known finding C14-1)
-    401: '65001', 402: '^65001 6500[0-9]', 403: '_6500[12]_', 404: '^$',
+    401: '65001', 402: '^65001 6500[0-9]', 403: '_6500[12]_', 404: '^$', 405: '\\{65001,', 406: '^\\(6500[0-9]', 407: '65002$',
+    408: '_65004_.*_65001$', 409: '^[0-9]+$', 410: '\\[.*\\]', 411: ' $',
 }
 def rx_entry(i): return [1, i, list(RX[i].encode())]
 
@@ -224,7 +231,25 @@ def c_op(op):
                 'ro_confed := %s; ro_local := %s; ro_peer := %s |})') % (
             cbool(op[1] == 0), c_src(op[2]), c_nlri(op[3]), c_attrs(op[4]), c_nh(op[5]), c_nh(op[6]),
             cbool(op[7]), c_ip(op[8]), c_ip(op[9]))
+    if t == 11: return 'OSetRpki'
+    if t == 12: return '(OProbe %s %s)' % (c_nlri(op[1]), cN(op[2]))
     return 'ODump'
+
+def c_gop(op):
+    t = op[0]
+    if t <= 8: return '(GOp %s)' % c_op(op)
+    if t == 20: return '(GAddPeer %s %s)' % (cN(op[1]), copt('(%s, %s)' % (c_disp(op[2][0][0]), c_names(op[2][0][1]))) if op[2] else 'None')
+    if t == 21: return '(GPeerAddAsg %s %s %s %s)' % (cN(op[1]), cbool(op[2] == 0), c_disp(op[3]), c_names(op[4]))
+    if t == 22: return '(GPeerDelAsg %s %s %s %s)' % (cN(op[1]), cbool(op[2] == 0), c_names(op[3]), cbool(op[4]))
+    if t == 23:
+        return ('(GPeerEval %s {| ro_src := %s; ro_net := %s; ro_attrs := %s; ro_nh := %s; ro_orig := %s; '
+                'ro_confed := %s; ro_local := %s; ro_peer := %s |})') % (
+            cN(op[1]), c_src(op[2]), c_nlri(op[3]), c_attrs(op[4]), c_nh(op[5]), c_nh(op[6]), cbool(op[7]), c_ip(op[8]), c_ip(op[9]))
+    return 'GDump'
+
+def as_eval_ops(ops):
+    """Global-level ops seen as table-level ops for the universe / table computations (23 -> 9)"""
+    return [([9, 1] + op[2:]) if op[0] == 23 else op for op in ops]
 
 # ---------------------------------------------------------------- regex tables for a case
 def case_universe(ops):
@@ -248,6 +273,63 @@ def case_universe(ops):
                 if d['code'] == 32: large.update(chunks(d['data'], 12))
     return ids, comm, ext, large
 
+def prepend_bytes(b, seg, asn):
+    if len(b) >= 2 and b[0] == seg and b[1] < 255:
+        return [b[0], b[1] + 1] + list(asn.to_bytes(4, 'big')) + b[2:]
+    return [seg, 1] + list(asn.to_bytes(4, 'big')) + b
+
+def aspath_universe(ops, cap=600):
+    """every AS_PATH byte string evaluation can meet: those of the routes, closed under the case's as-prepend actions"""
+    S = {()}
+    pre = set()
+    for op in ops:
+        if op[0] == 9:
+            for a in op[4]:
+                d = attr_in(a)
+                if d is not None and d['code'] == 2 and d['k'] != 0: S.add(tuple(d['data']))
+        if op[0] == 3 and op[4][4]:
+            asn, rep, lm = op[4][4][0]
+            if rep > 0: pre.add((asn, rep, lm))
+    frontier = set(S)
+    for _ in range(4):
+        new = set()
+        for b in frontier:
+            for asn, rep, lm in pre:
+                for seg in (2, 3):
+                    a = asn
+                    if lm:
+                        sg = iter_segs(list(b))
+                        if sg and sg[0][1]: a = sg[0][1][0]
+                    x = list(b)
+                    for _ in range(rep): x = prepend_bytes(x, seg, a)
+                    x = tuple(x)
+                    if x not in S: new.add(x)
+        S |= new
+        frontier = new
+        if not new or len(S) > cap: break
+    return S
+
+def aspath_table(ops):
+    ids = set()
+    for op in ops:
+        if op[0] in (1, 2) and op[2][0] == 2:
+            for e in op[2][2]:
+                if e and e[0] == 1: ids.add(e[1])
+    if not ids: return []
+    strs = sorted({aspath_string(iter_segs(list(b))) for b in aspath_universe(ops)})
+    return [(i, [st for st in strs if rx_aspath(i, st)]) for i in sorted(ids)]
+
+def probe_table(ops, obs):
+    tv = {}
+    if isinstance(obs, list):
+        for op, o in zip(ops, obs):
+            if op[0] == 12 and o != [-2] and o != [-1]:
+                tv[(tuple(op[1]), op[2])] = o[0] if o else None
+    return tv
+
+def c_str_table(t): return clist(['(%s, %s)' % (cN(i), clist([val.cbytes(list(x.encode())) for x in l])) for i, l in t])
+def c_probe_table(tv): return clist(['(%s, %s, %s)' % (c_nlri(list(k[0])), cN(k[1]), copt(cN(v)) if v is not None else 'None') for k, v in sorted(tv.items())])
+
 def rx_tables(ops):
     ids, comm, ext, large = case_universe(ops)
     tc = [(i, sorted(c for c in comm if rx_comm(i, c))) for i in sorted(ids) if 100 < i < 200]
@@ -262,13 +344,24 @@ def covers(w, eaddr, emask, raddr, rmask):
     return emask <= rmask and (emask == 0 or (eaddr >> (w - emask)) == (raddr >> (w - emask)))
 
 def aspath_string(segs):
+    """python mirror of table/src/policy.rs as_path_string (GoBGP's rendering)"""
     parts = []
     for t, l in segs:
-        if t == 2: parts.append(' '.join(map(str, l)))
-        elif t == 1: parts.append('{' + ','.join(map(str, l)) + '}')
+        if t == 1: parts.append('{' + ','.join(map(str, l)) + '}')
         elif t == 3: parts.append('(' + ' '.join(map(str, l)) + ')')
-        else: parts.append('[' + ','.join(map(str, l)) + ']')
-    return ' '.join(p for p in parts)
+        elif t == 4: parts.append('[' + ','.join(map(str, l)) + ']')
+        else: parts.append(' '.join(map(str, l)))
+    return ' '.join(parts)
+
+def rx_aspath(i, s): return re.search(RX[i].replace('_', '(^|[,{}() ]|$)'), s) is not None
+
+def origin_asn(attrs, src):
+    """the AS RpkiTable::validate checks: as_path_origin of the first AS_PATH attribute, else the source's local AS"""
+    a = find_attr(attrs, 2)
+    if a is not None and a['k'] != 0:
+        segs = iter_segs(a['data'])
+        if segs and segs[-1][0] == 2 and segs[-1][1]: return segs[-1][1][-1]
+    return src[4]
 
 def single_ref(k, a, b, flat):
     rng = lambda x: a <= x <= b
@@ -295,11 +388,13 @@ class Ref:
         self.stmts = {}    # name -> dict(conds, disp, act)
         self.pols = {}     # name -> [stmt names]
         self.asg = {}      # dir -> (default, [policy names])
+        self.peers = {}    # peer -> None | (default, [policy names])   (Global-level cases)
 
     # ---- who references what
     def set_users(self, k, n): return [s for s, st in self.stmts.items() if any(c[0] == k and c[1] == n for c in st['conds'] if c[0] < 6)]
     def stmt_users(self, n): return [p for p, ss in self.pols.items() if n in ss]
-    def pol_users(self, n): return [d for d, (_, ps) in self.asg.items() if n in ps]
+    def pol_users(self, n):
+        return [d for d, (_, ps) in self.asg.items() if n in ps] + ['peer%d' % p for p, a in self.peers.items() if a and n in a[1]]
 
     @staticmethod
     def parse_entries(kind, ents):
@@ -438,6 +533,19 @@ class Ref:
             old = self.asg.get(d)
             self.asg[d] = (op[3], list(op[4]) + (old[1] if (old and not op[1]) else []))
             return None
+        if t == 20:
+            if code == 0: self.peers[op[1]] = (min(op[2][0][0], 2), list(op[2][0][1])) if op[2] else None
+            return None
+        if t == 21:
+            if code != 0: return None
+            old = self.peers.get(op[1])
+            self.peers[op[1]] = (1 if op[3] == 1 else 2, list(op[4]) + (old[1] if old else []))
+            return None
+        if t == 22:
+            if code != 0: return None
+            if op[4]: self.peers[op[1]] = None
+            elif self.peers.get(op[1]): self.peers[op[1]] = (self.peers[op[1]][0], [p for p in self.peers[op[1]][1] if p not in op[3]])
+            return None
         if t == 8:
             if code != 0: return None
             d = op[1]
@@ -447,10 +555,10 @@ class Ref:
         return None
 
     # ---- evaluation
-    def flat_statements(self, d):
+    def flat_statements(self, d, pols=None):
         """the assignment's statements in order, with their sets resolved by name; None if dangling"""
         out = []
-        for p in self.asg[d][1]:
+        for p in (self.asg[d][1] if pols is None else pols):
             if p not in self.pols: return None
             for s in self.pols[p]:
                 if s not in self.stmts: return None
@@ -490,7 +598,7 @@ def ref_cond(c, content, x, attrs, nh):
         res = []
         for p in content:
             if p[0] == 's': res.append(flat is not None and single_ref(p[1], p[2], p[3], flat))
-            else: res.append(segs is not None and re.search(RX[p[1]].replace('_', '(^|[,{}() ]|$)'), aspath_string(segs)) is not None)
+            else: res.append(segs is not None and rx_aspath(p[1], aspath_string(segs)))
         return opt_apply(c[2], any(res), all(res))
     if k in (3, 4, 5):
         code, width, sf, rxf = {3: (8, 4, comm_str, rx_comm), 4: (16, 8, ext_str, rx_ext), 5: (32, 12, large_str, rx_large)}[k]
@@ -510,7 +618,9 @@ def ref_cond(c, content, x, attrs, nh):
             p += 2 + 4 * b[p + 1]
         return cmpf(c[1], l, c[2])
     if k == 7: return bool(nh) and (ipv(nh[0][:3]) if nh[0][0] != 7 else (6, (nh[0][1] << 64) | nh[0][2])) in [ipv(i) for i in c[1]]
-    if k == 8: return False     # no RPKI table in this harness
+    if k == 8:
+        if x.get('rpki') is None: return False
+        return x['rpki'].get((tuple(x['net']), origin_asn(attrs, x['src']))) == c[1]
     if k in (9, 10, 11):
         a = find_attr(attrs, {9: 5, 10: 4, 11: 1}[k])
         return a is not None and a['k'] == 0 and a['data'] == c[1]
@@ -581,11 +691,17 @@ def ref_actions(act, x, attrs, nh):
     if a_orig: attrs = replace_attr(attrs, 1, {'k': 0, 'code': 1, 'flags': 64, 'data': a_orig[0]})
     return attrs, nh
 
-def ref_eval(ref, op):
+def ref_eval(ref, op, rpki=None):
     """reference result of an Eval op: (first element, attrs, nh) or a string for 'no verdict'"""
     d = op[1]
-    if d not in ref.asg: return ('none',)
-    stmts = ref.flat_statements(d)
+    if op[0] == 23:
+        a = ref.peers.get(op[1]) or ref.asg.get(1)
+        if a is None: return ('none',)
+        op = [9, 1] + op[2:]; d = 1
+        dflt, stmts = a[0], ref.flat_statements(1, a[1])
+    else:
+        if d not in ref.asg: return ('none',)
+        dflt, stmts = ref.asg[d][0], ref.flat_statements(d)
     if stmts is None: return ('dangling',)
     attrs = [a for a in (attr_in(a) for a in op[4]) if a is not None]
     nh = op[5]
@@ -593,6 +709,7 @@ def ref_eval(ref, op):
         x = {'src': op[2], 'net': op[3], 'orig': nh, 'confed': 0, 'local': op[2][2], 'peer': op[2][1]}
     else:
         x = {'src': op[2], 'net': op[3], 'orig': op[6], 'confed': op[7], 'local': op[8], 'peer': op[9]}
+    x['rpki'] = rpki
     disp = None
     for st, conds in stmts:
         if all(ref_cond(c, content, x, attrs, nh) for c, content in conds):
@@ -601,20 +718,13 @@ def ref_eval(ref, op):
             if dd != 0:
                 disp = dd
                 break
-    if disp is None: disp = min(ref.asg[d][0], 2)
+    if disp is None: disp = min(dflt, 2)
     first = (1 if disp == 2 else 0) if d == 0 else disp
     return ('ok', [first, [attr_out(a) for a in attrs], nh])
 
 def eval_classes(ref, op):
-    """input classes of an Eval op (decidable from the inputs only)"""
-    tags = set()
-    d = op[1]
-    if d in ref.asg:
-        st = ref.flat_statements(d) or []
-        for s, conds in st:
-            for c, content in conds:
-                if c[0] == 2 and any(p[0] == 'r' for p in content): tags.add('aspath-regex')
-    return tags
+    """input classes of an Eval op (decidable from the inputs only); no open finding is left for C14"""
+    return set()
 
 # ---------------------------------------------------------------- the property object
 def NOACT(): return [[], [], [], [], [], [], [], []]
@@ -639,13 +749,13 @@ def n6(x, m): return [6, (V6BASE | x) >> 64, (V6BASE | x) & ((1 << 64) - 1), m]
 class Prop:
     pid = 'C14'
     props_file = 'Props/C14.v'
-    required_theorems = ['eval_code_eq_spec_outside_known', 'eval_spec_is_functional', 'eval_code_eq_spec_refuted',
+    required_theorems = ['eval_code_eq_spec', 'eval_spec_is_functional', 'aspath_regex_ignored_pre_fix_refuted',
                          'eval_never_panics_api', 'eval_never_panics_wire', 'crud_preserves_references',
-                         'crud_referenced_frozen', 'wire_aspath_decoded', 'api_built_assignments_wf',
-                         'prefix_set_longest_match_refuted', 'aspath_patterns_refuted',
-                         'arithmetic_and_api_refuted']
+                         'crud_referenced_frozen', 'global_preserves_references', 'global_referenced_frozen', 'wire_aspath_decoded', 'wire_aspath_rendered', 'api_built_assignments_wf',
+                         'prefix_set_longest_match_refuted', 'aspath_patterns_refuted', 'arithmetic_and_api_refuted']
     correspondence_name = ('Model/Policy.v eval_code + Model/PolicyTable.v crud_step vs table/src/policy.rs PolicyTable / '
-                           'apply_import / apply_export (harness/hx-policy)')
+                           'apply_import / apply_export (harness/hx-policy); Model/PolicyGlobal.v gstep vs daemon/src/event/mod.rs Global '
+                           '(harness/daemon/event_policy_hx.rs)')
     rule = ('case = a sequence of PolicyTable API calls (add/replace/delete of defined sets, statements, policies, assignments) '
             'interleaved with apply_import/apply_export evaluations and a table dump; a case is non-trivial when some evaluation '
             'ran under an assignment with at least one statement; distinct = distinct (sequence of result codes, evaluation '
@@ -668,25 +778,39 @@ class Prop:
     # ---- rendering
     def case_to_val(self, c): return c['ops']
     def case_to_coq(self, c):
+        if c.get('kind') == 'global':
+            eo = as_eval_ops(c['ops'])
+            tc, te, tl = rx_tables(eo)
+            return 'grun_case %s %s %s %s %s' % (c_table(tc), c_table(te), c_table(tl), c_str_table(aspath_table(eo)),
+                                                clist([c_gop(o) for o in c['ops']]))
         tc, te, tl = rx_tables(c['ops'])
-        return 'run_case %s %s %s %s' % (c_table(tc), c_table(te), c_table(tl), clist([c_op(o) for o in c['ops']]))
-    def case_to_json(self, c): return json.loads(json.dumps(c))
+        return 'run_case %s %s %s %s %s %s' % (c_table(tc), c_table(te), c_table(tl), c_str_table(aspath_table(c['ops'])),
+                                             c_probe_table(c.get('_tv', {})), clist([c_op(o) for o in c['ops']]))
+    def case_to_json(self, c): return json.loads(json.dumps({k: v for k, v in c.items() if not k.startswith('_')}))
     def case_from_json(self, j): return j
 
     # ---- running
     def run_impl(self, cases, tier):
         out = [None] * len(cases)
+        gidx = [i for i, c in enumerate(cases) if c.get('kind') == 'global']
+        if gidx:
+            obs, err = rustrun.daemon_test('C14_global', 'event::verif_hx::c14::verif_policy_cases',
+                                           [self.case_to_val(cases[i]) for i in gidx])
+            if obs is None: return None, err
+            for i, o in zip(gidx, obs): out[i] = o
         for prof in ('debug', 'release'):
-            idx = [i for i, c in enumerate(cases) if c.get('profile', 'debug') == prof]
+            idx = [i for i, c in enumerate(cases) if c.get('profile', 'debug') == prof and c.get('kind') != 'global']
             if not idx: continue
             obs, err = rustrun.crate_bin('C14_' + prof, 'hx-policy', '', [self.case_to_val(cases[i]) for i in idx],
                                          release=(prof == 'release'))
             if obs is None: return None, err
             for i, o in zip(idx, obs): out[i] = o
+        # the RpkiTable::validate oracle of the model is instantiated with what the probe operations observed
+        for c, o in zip(cases, out): c['_tv'] = probe_table(c['ops'], o)
         return out, ''
 
     def run_model(self, cases, tier):
-        pre = 'From RB Require Import Base.Val Model.Policy Model.PolicyTable.\nOpen Scope N_scope.'
+        pre = 'From RB Require Import Base.Val Model.Policy Model.PolicyTable Model.PolicyGlobal.\nOpen Scope N_scope.'
         return coqrun.eval_terms('C14', pre, [self.case_to_coq(c) for c in cases])
 
     def canon(self, case, obs):
@@ -694,24 +818,34 @@ class Prop:
         if not isinstance(obs, list): return obs
         out = []
         for op, o in zip(case['ops'], obs):
-            if op[0] == 10 and isinstance(o, list) and len(o) == 5:
+            def cd(o):
                 sets = sorted([[s[0], s[1], ([sorted(s[2][0])] + s[2][1:]) if s[0] == 0 else s[2]] for s in o[0]])
-                o = [sets, sorted(o[1]), sorted(o[2]), o[3], o[4]]
+                return [sets, sorted(o[1]), sorted(o[2]), o[3], o[4]]
+            if op[0] == 10 and isinstance(o, list) and len(o) == 5: o = cd(o)
+            if op[0] == 24 and isinstance(o, list) and len(o) == 4: o = [cd(o[0]), sorted(o[1]), o[2], o[3]]
             out.append(o)
         return out + obs[len(out):]
 
     # ---- Spec oracle on the implementation's observations
     def oracle(self, c, obs):
         ref = Ref()
+        tv = probe_table(c['ops'], obs)
+        rpki = None
         for k, op in enumerate(c['ops']):
             if k >= len(obs): return None
             o = obs[k]
-            if op[0] == 9:
+            if op[0] == 11:
+                rpki = tv
+                continue
+            if op[0] == 12:
+                if o == [-1]: return 'op %d: RpkiTable::validate panicked' % k
+                continue
+            if op[0] in (9, 23):
                 cls = eval_classes(ref, op)
                 tag = ''.join(' [class:%s]' % t for t in sorted(cls))
                 if o == [-1]:
                     return 'op %d: policy evaluation panicked%s' % (k, tag)
-                r = ref_eval(ref, op)
+                r = ref_eval(ref, op, rpki)
                 if r[0] == 'none':
                     if o != [-2]: return 'op %d: evaluation result without an assignment' % k
                     continue
@@ -721,6 +855,20 @@ class Prop:
                     what = 'verdict' if o[0] != r[1][0] else 'attributes' if o[1] != r[1][1] else 'next hop'
                     return 'op %d: %s differs from the reference semantics (got %s, want %s)%s' % (
                         k, what, json.dumps(o)[:160], json.dumps(r[1])[:160], tag)
+            elif op[0] == 24:
+                if o == [-1]: return None
+                for pid, a in o[1]:
+                    for x in a:
+                        for pp in x[1]:
+                            if pp[1] != 1: return 'op %d: peer %d holds a stale copy of policy %d' % (k, pid, pp[0])
+                if o[2] != 1 or o[3] != 1: return 'op %d: the policy slot the sessions read is not the table\'s assignment' % k
+                o = o[0]
+                for p in o[2]:
+                    for st in p[1]:
+                        if st[1] != 1: return 'op %d: policy %d holds a stale copy of statement %d' % (k, p[0], st[0])
+                for st in o[1]:
+                    for cd in st[1]:
+                        if len(cd) == 4 and cd[3] != 1: return 'op %d: statement %d holds a stale copy of set %d/%d' % (k, st[0], cd[0], cd[1])
             elif op[0] == 10:
                 if o == [-1]: return None
                 # every reference must be the object the table lists under that name
@@ -741,7 +889,6 @@ class Prop:
         return None
 
     def in_known_class(self, kf, c, obs, why):
-        if kf['id'] == 'C14-1': return '[class:aspath-regex]' in why
         return False
 
     def nontrivial_key(self, c, obs):
@@ -750,12 +897,12 @@ class Prop:
         nontrivial = False
         ref_has = False
         for op, o in zip(c['ops'], obs):
-            if op[0] == 9:
+            if op[0] in (9, 23):
                 if o not in ([-1], [-2]):
                     sig.append((op[1], o[0], tuple(a[1] for a in o[1]), len(o[2])))
                     nontrivial = nontrivial or ref_has
                 else: sig.append(tuple(o))
-            elif op[0] == 10: continue
+            elif op[0] in (10, 11, 12, 24): continue
             else:
                 sig.append((op[0], tuple(o)))
                 if op[0] == 3 and o == [0]:
@@ -768,7 +915,9 @@ class Prop:
         n = len(c['ops'])
         tags.append('ops_%s' % ('1-6' if n <= 6 else '7-12' if n <= 12 else '13+'))
         if isinstance(obs, list):
-            codes = [o[0] for op, o in zip(c['ops'], obs) if op[0] not in (9, 10) and o != [-1]]
+            codes = [o[0] for op, o in zip(c['ops'], obs) if op[0] not in (9, 10, 11, 12, 23, 24) and o != [-1]]
+            for op, o in zip(c['ops'], obs):
+                if op[0] == 12 and o != [-2]: tags.append('rpki_probe_%s' % (o[0] if o else 'none'))
             for code, nm in ((1, 'err_invalid'), (2, 'err_in_use'), (3, 'err_not_found')):
                 if code in codes: tags.append(nm)
             if [-1] in obs: tags.append('panic')
